@@ -11,6 +11,14 @@ type access struct {
 	seg    int
 	locks  string // mutexes held (canonical)
 	where  string
+	seq    int
+}
+
+type lockEv struct {
+	thread  int
+	seq     int
+	key     string
+	acquire bool
 }
 
 type accessLog struct {
@@ -20,6 +28,8 @@ type accessLog struct {
 	seg           int
 	onLockBlocked func(st *State, p PtrVal)
 	events        []string
+	seq           int
+	lockEvs       []lockEv
 }
 
 func (l *accessLog) clone() *accessLog {
@@ -27,6 +37,7 @@ func (l *accessLog) clone() *accessLog {
 	n.acc = append([]access(nil), l.acc...)
 	n.held = append([]string(nil), l.held...)
 	n.events = append([]string(nil), l.events...)
+	n.lockEvs = append([]lockEv(nil), l.lockEvs...)
 	return &n
 }
 
@@ -39,7 +50,7 @@ func pathKey(p []int) string {
 }
 
 func (l *accessLog) note(st *State, p PtrVal, write bool) {
-	if p.obj > l.epoch {
+	if p.obj > l.epoch || st.thread == 0 {
 		return
 	}
 	where := ""
@@ -50,7 +61,8 @@ func (l *accessLog) note(st *State, p PtrVal, write bool) {
 	for _, h := range l.held {
 		hl += h + ","
 	}
-	l.acc = append(l.acc, access{obj: p.obj, path: pathKey(p.path), write: write, thread: st.thread, seg: l.seg, locks: hl, where: where})
+	l.seq++
+	l.acc = append(l.acc, access{obj: p.obj, path: pathKey(p.path), write: write, thread: st.thread, seg: l.seg, locks: hl, where: where, seq: l.seq})
 }
 
 func (l *accessLog) lockEvent(st *State, p PtrVal, lock bool) {
@@ -58,6 +70,8 @@ func (l *accessLog) lockEvent(st *State, p PtrVal, lock bool) {
 	id := string(rune('A'+p.obj%26)) + k
 	_ = id
 	key := itoa(p.obj) + ":" + k
+	l.seq++
+	l.lockEvs = append(l.lockEvs, lockEv{thread: st.thread, seq: l.seq, key: key, acquire: lock})
 	if lock {
 		l.held = append(l.held, key)
 	} else {
@@ -81,4 +95,115 @@ func itoa(n int) string {
 		n /= 10
 	}
 	return string(b)
+}
+
+// races performs a lockset analysis of the logged accesses: two accesses to
+// the same location (one path a prefix of the other) from different threads,
+// at least one of them a write, with no mutex held in common, are a data race
+// by the Go memory model (only mutexes order the threads).
+func (l *accessLog) races() []string {
+	type key struct {
+		obj  int
+		path string
+	}
+	byObj := map[int][]access{}
+	for _, a := range l.acc {
+		byObj[a.obj] = append(byObj[a.obj], a)
+	}
+	seen := map[string]bool{}
+	var out []string
+	common := func(x, y string) bool {
+		if x == "" || y == "" {
+			return false
+		}
+		for _, a := range splitComma(x) {
+			for _, b := range splitComma(y) {
+				if a == b {
+					return true
+				}
+			}
+		}
+		return false
+	}
+	for _, as := range byObj {
+		for i := 0; i < len(as); i++ {
+			for j := i + 1; j < len(as); j++ {
+				a, b := as[i], as[j]
+				if a.thread == b.thread || (!a.write && !b.write) {
+					continue
+				}
+				// only the two schedules are compared: (1,2) and (3,4)
+				lo, hi := a.thread, b.thread
+				if lo > hi {
+					lo, hi = hi, lo
+				}
+				if !((lo == 1 && hi == 2) || (lo == 3 && hi == 4)) {
+					continue
+				}
+				if !(hasPrefix(a.path, b.path) || hasPrefix(b.path, a.path)) {
+					continue
+				}
+				if common(a.locks, b.locks) {
+					continue
+				}
+				// schedule: the critical sections of the lower-numbered thread
+				// come first; x happens-before y if x precedes a release of some
+				// mutex L by its thread and y follows an acquisition of L by the
+				// other thread
+				x, y := a, b
+				if x.thread > y.thread {
+					x, y = y, x
+				}
+				ordered := false
+				for _, r := range l.lockEvs {
+					if r.thread != x.thread || r.acquire || r.seq < x.seq {
+						continue
+					}
+					for _, q := range l.lockEvs {
+						if q.thread == y.thread && q.acquire && q.key == r.key && q.seq < y.seq {
+							ordered = true
+						}
+					}
+				}
+				if ordered {
+					continue
+				}
+				w, r := a, b
+				if !w.write {
+					w, r = b, a
+				}
+				kind := "read"
+				if r.write {
+					kind = "write"
+				}
+				d := "write in " + w.where + " vs " + kind + " in " + r.where
+				if !seen[d] {
+					seen[d] = true
+					out = append(out, d)
+				}
+			}
+		}
+	}
+	return out
+}
+
+func hasPrefix(s, p string) bool { return len(s) >= len(p) && s[:len(p)] == p }
+
+func splitComma(s string) []string {
+	var out []string
+	cur := ""
+	for i := 0; i < len(s); i++ {
+		if s[i] == ',' {
+			if cur != "" {
+				out = append(out, cur)
+			}
+			cur = ""
+		} else {
+			cur += string(s[i])
+		}
+	}
+	if cur != "" {
+		out = append(out, cur)
+	}
+	return out
 }
